@@ -86,7 +86,12 @@ class HideNestedTransitions(Transform):
 
     def apply(self, **kwargs: t.Any) -> None:
         for node in list(findall(self.document)(nodes.transition)):
-            if not isinstance(node.parent, nodes.document | nodes.section):
+            # also in a section that is itself nested (a heading in the body of e.g.
+            # ``only``): from the end of it, docutils moves the transition up and out
+            parent = node.parent
+            while isinstance(parent, nodes.section):
+                parent = parent.parent
+            if not isinstance(parent, nodes.document):
                 pending = nodes.pending(_RestoreTransition, {"transition": node})
                 self.document.note_pending(pending)
                 node.replace_self(pending)
